@@ -14,6 +14,7 @@ import json
 import os
 
 import gen_pipeline
+import go2lean_c01
 import vlib
 
 PID = "C01"
@@ -173,6 +174,8 @@ def budget(R):
 
 def run(R):
     lean_ok = vlib.step_lean(R, PID)
+    # the composites / conditional handlers translated from the current source, proved equal to the model
+    go2lean_c01.step(R)
     exe = vlib.step_harness(R)
     if exe is None:
         R.violation("harness does not build against /repo (API used by the correspondence check changed)",
@@ -348,6 +351,9 @@ def run(R):
         R.violation("theorems of Props/C01.lean no longer check: " + "; ".join(R.lean["failed"])[:600],
                     {"lean_log": R.lean["log"], "failed": R.lean["failed"],
                      "theorems": R.lean.get("failed_theorems")}, no_input=True)
+    go2lean_c01.report(R, exe, corpus, one, spec_violations, differs, describe, shrink)
+    # the replay file carries the first violation: concrete inputs first
+    R.violations.sort(key=lambda v: v[2])
 
 
 def replay(R, path):
